@@ -291,3 +291,18 @@ Example Gex_level2 :
   | _ => False
   end.
 Proof. split; vm_compute; reflexivity. Qed.
+
+(* the hypotheses of [continuation] on a non-trivial instance: level 2 of Gex cut after its 2nd guess *)
+Example Gex_continuation :
+  mc_starts (ip_at (Gex 10)) (ln_at (Gex 10)) 10 0 = Some (0, 0) /\
+  1 < length (level_strings (Gex 10) 2%Z) /\
+  match enumerate (ip_at (Gex 10)) (cp_fast (Gex 10)) (ln_at (Gex 10)) 10 4 0 2 cempty 2%Z with
+  | Some (l, _, st, _) =>
+      l = firstn 2 (level_strings (Gex 10) 2%Z) /\
+      mc_save st = (2%Z, (0, 0), (1, 0), [([97%N], 1, 0); ([98%N], 0, 0); ([97%N], 0, 0)], true) /\
+      fst (fst (fst (mc_run (ip_at (Gex 10)) (cp_fast (Gex 10)) (ln_at (Gex 10)) 10 4 10
+                            (mc_fuel (ip_at (Gex 10)) (ln_at (Gex 10)) 10) (0, 0) cempty (mc_load (mc_save st)))))
+      = skipn 2 (level_strings (Gex 10) 2%Z)
+  | None => False
+  end.
+Proof. split; [reflexivity|]. split; [vm_compute; repeat constructor|]. vm_compute. repeat split; reflexivity. Qed.
